@@ -546,3 +546,64 @@ def writer_inputs(ck, mod):
         bad.append(("cyclic dict recursed without bound",))
     ck.enumerations.append(("dmd.write.inputs", n, len(bad), bad[:3]))
     ck.struct("dmd.write.inputs", not bad, "write()/_recursive_items deviate from the field-name contract: %s" % (bad[:3],), {"no_input": False})
+
+
+def populate_contract(ck, mod):
+    """DigitalMetadataReader._populate_data on real (in-memory) HDF5 objects, enumerated over value shapes: what the writer stored with
+    create_dataset(key, data=value) comes back as the equal Python value - numbers, booleans, text (also non-ASCII), numeric arrays,
+    lists of text (also non-ASCII), nested groups as nested dicts."""
+    import numpy as np, h5py
+    R = mod.DigitalMetadataReader
+    ck.add_function(pyload.source_info(mod, "DigitalMetadataReader._populate_data"))
+    values = {
+        "int": 7, "negative": -3, "float": 2.5, "bool": True, "np_scalar": np.float32(1.25), "big": 2 ** 40,
+        "text": "abc", "text_non_ascii": "Troms\u00f8 \u00b0C", "empty_text": "",
+        "int_list": [1, 2, 3], "float_array": np.array([[1.5, 2.5], [3.5, 4.5]]), "int_array": np.arange(5, dtype="i4"),
+        "text_list": ["ab", "cde"], "text_list_non_ascii": ["Troms\u00f8", "x", "Andr\u00e9"],
+    }
+    bad = []
+    n = 0
+
+    def same(a, b):
+        if isinstance(b, np.ndarray) or isinstance(a, np.ndarray):
+            return np.asarray(a).shape == np.asarray(b).shape and bool(np.array_equal(np.asarray(a), np.asarray(b)))
+        if isinstance(b, list):
+            return isinstance(a, (list, np.ndarray)) and list(a) == b
+        if isinstance(b, str):
+            return isinstance(a, str) and a == b
+        if isinstance(b, np.generic):
+            return a == b.item()
+        return a == b and type(a) in (type(b), int, float, bool)
+    f = h5py.File("dvc_populate.h5", "w", driver="core", backing_store=False)
+    try:
+        g = f.create_group("1000")
+        for k, v in values.items():
+            g.create_dataset(k, data=v)
+        sub = g.create_group("nest")
+        sub.create_dataset("a", data=1.5)
+        sub.create_group("deeper").create_dataset("t", data="\u00e5")
+        self_ = types.SimpleNamespace()
+        self_._populate_data = types.MethodType(R._populate_data, self_)
+        for k, v in values.items():
+            n += 1
+            d = {}
+            try:
+                R._populate_data(self_, d, g[k], k)
+                if list(d) != [k] or not same(d[k], v):
+                    bad.append((k, "stored %r, read back %r" % (v, d.get(k))))
+            except Exception as e:
+                bad.append((k, "stored %r, reading raised %r" % (v, e)))
+        n += 1
+        d = {}
+        try:
+            R._populate_data(self_, d, g, 1000)
+            got = d.get(1000)
+            ok = isinstance(got, dict) and set(got) == set(values) | {"nest"} and got["nest"] == {"a": 1.5, "deeper": {"t": "\u00e5"}} and all(same(got[k], v) for k, v in values.items())
+            if not ok:
+                bad.append(("whole sample", "read back %r" % (got,)))
+        except Exception as e:
+            bad.append(("whole sample", "raised %r" % (e,)))
+    finally:
+        f.close()
+    ck.enumerations.append(("dmd.populate.values_round_trip", n, len(bad), bad[:3]))
+    ck.struct("dmd.populate.values_round_trip", not bad, "_populate_data does not return what was stored: %s" % (bad[:3],), {"no_input": False})
